@@ -16,6 +16,15 @@ BIN=$V/.bin/$id
 if [ -n "${VERIF_MUTATE:-}" ]; then GEN=$V/.gen/$id-mut-$$; BIN=$V/.bin/$id-mut-$$; mkdir -p "$GEN"; trap 'rm -rf "$GEN" "$BIN"' EXIT; fi
 PKGS=$(cat $V/checks/$id/rewrite.pkgs 2>/dev/null | tr '\n' ',' )
 $V/.bin/rewrite -repo /repo -out "$GEN" -shim $V/shim -pkgs "$PKGS" || { echo "INFRA: rewrite failed"; exit 2; }
+if [ "$TIER" = "race" ]; then
+  # free-running pass under the race detector (auxiliary: decides nothing, see DESIGN 9.5)
+  BIN=$V/.bin/$id-race; mkdir -p $V/.race; rm -f $V/.race/$id.*
+  (cd $V && go build -race -tags verif -overlay "$GEN/overlay.json" -o $BIN ./checks/$id) || { echo "INFRA: -race build of check $ID failed"; exit 2; }
+  GORACE="log_path=$V/.race/$id exitcode=0 history_size=3" $BIN -tier quick -free ${VERIF_FREE_RUNS:-20} "$@"
+  python3 $V/racepass.py $ID $V/.race/$id.*
+  rm -f $BIN
+  exit 0
+fi
 (cd $V && go build -tags verif -overlay "$GEN/overlay.json" -o $BIN ./checks/$id) || { echo "INFRA: build of check $ID failed"; exit 2; }
 ulimit -v 33554432 2>/dev/null
 if [ "$TIER" = "--replay" ]; then $BIN -replay "$@"; exit $?; fi
